@@ -94,3 +94,56 @@ package master
 //@   fresh
 //@   ensures result != nil && result.Shards != nil && fresh(result.Shards) && len(result.Shards) == 0 && all(k, "models.ShardID", !has(result.Shards, k))
 //@ end
+
+//@ # ---- node failure (C18): every shard that was led by the failed node either gets a leader that is alive or
+//@ # goes offline without a leader; no other shard state changes except to such a value -------------------------
+//@ func ReplicaLeaderElector.ElectLeader
+//@   requires shardAssignment != nil && shardAssignment.Shards != nil && all(k, "models.ShardID", has(shardAssignment.Shards, k) ==> shardAssignment.Shards[k] != nil)
+//@   modifies nothing
+//@   ensures err == nil ==> has(liveNodes, leader)
+//@ end
+//@ uf leadersOf(ref, models.NodeID) ref
+//@ func github.com/lindb/lindb/models.StorageState.LeadersOnNode
+//@   assume
+//@   modifies nothing
+//@   ensures result != nil && result == cast(leadersOf(s, nodeID), "map[string][]models.ShardID")
+//@ end
+//@ predicate shardGood(s models.ShardState, st *models.StorageState) bool = (s.State == models.OfflineShard && s.Leader == models.NoLeader) || (s.State == models.OnlineShard && has(st.LiveNodes, s.Leader))
+//@ stable stateManager.elector
+//@ stable stateManager.logger
+//@ stable stateManager.shardLeaderStatistics
+//@ func stateManager.onNodeFailure
+//@   prop C18
+//@   arith math
+//@   requires state != nil && m.elector != nil && m.logger != nil && m.shardLeaderStatistics != nil && state.ShardAssignments != nil && state.ShardStates != nil
+//@   requires all(db, "string", has(cast(leadersOf(state, nodeID), "map[string][]models.ShardID"), db) ==> (has(state.ShardStates, db) && state.ShardStates[db] != nil && has(state.ShardAssignments, db) && saOK(state.ShardAssignments[db])))
+//@   modifies *
+//@   ensures[every_shard_led_by_the_failed_node_gets_an_alive_leader_or_goes_offline] all(db, "string", has(cast(leadersOf(state, nodeID), "map[string][]models.ShardID"), db) ==> forall(i, 0, len(cast(leadersOf(state, nodeID), "map[string][]models.ShardID")[db]), has(state.ShardStates[db], cast(leadersOf(state, nodeID), "map[string][]models.ShardID")[db][i]) && shardGood(state.ShardStates[db][cast(leadersOf(state, nodeID), "map[string][]models.ShardID")[db][i]], state)))
+//@   loop 1 invariant state.ShardStates == old(state.ShardStates) && state.ShardAssignments == old(state.ShardAssignments) && liveNodes == state.LiveNodes && state.LiveNodes == old(state.LiveNodes) && leadersOnOfflineNode == cast(leadersOf(state, nodeID), "map[string][]models.ShardID")
+//@   loop 1 invariant all(db, "string", visited(leadersOnOfflineNode, db) ==> forall(i, 0, len(leadersOnOfflineNode[db]), has(state.ShardStates[db], leadersOnOfflineNode[db][i]) && shardGood(state.ShardStates[db][leadersOnOfflineNode[db][i]], state)))
+//@   loop 2 invariant state.ShardStates == old(state.ShardStates) && state.ShardAssignments == old(state.ShardAssignments) && liveNodes == state.LiveNodes && state.LiveNodes == old(state.LiveNodes) && leadersOnOfflineNode == cast(leadersOf(state, nodeID), "map[string][]models.ShardID") && shardStates == state.ShardStates[db] && shardAssignment == state.ShardAssignments[db] && shards == leadersOnOfflineNode[db] && has(leadersOnOfflineNode, db)
+//@   loop 2 invariant all(d2, "string", (visited(leadersOnOfflineNode, d2) && d2 != db) ==> forall(i, 0, len(leadersOnOfflineNode[d2]), has(state.ShardStates[d2], leadersOnOfflineNode[d2][i]) && shardGood(state.ShardStates[d2][leadersOnOfflineNode[d2][i]], state)))
+//@   loop 2 invariant forall(i, 0, rangeindex + 1, has(shardStates, shards[i]) && shardGood(shardStates[shards[i]], state))
+//@ end
+
+//@ # ---- node startup (C18): every shard the node hosts is online afterwards; a shard that was offline is now led
+//@ # by the node that came up, an online shard keeps its leader -------------------------------------------------
+//@ uf replicasOf(ref, models.NodeID) ref
+//@ func github.com/lindb/lindb/models.StorageState.ReplicasOnNode
+//@   assume
+//@   modifies nothing
+//@   ensures result != nil && result == cast(replicasOf(s, nodeID), "map[string][]models.ShardID")
+//@ end
+//@ func stateManager.onNodeStartup
+//@   prop C18
+//@   arith math
+//@   requires state != nil && state.ShardStates != nil
+//@   requires all(db, "string", has(state.ShardStates, db) ==> state.ShardStates[db] != nil)
+//@   modifies *
+//@   ensures[every_hosted_shard_is_online] all(db, "string", (has(cast(replicasOf(state, node.ID), "map[string][]models.ShardID"), db) && has(state.ShardStates, db)) ==> forall(i, 0, len(cast(replicasOf(state, node.ID), "map[string][]models.ShardID")[db]), has(state.ShardStates[db], cast(replicasOf(state, node.ID), "map[string][]models.ShardID")[db][i]) && state.ShardStates[db][cast(replicasOf(state, node.ID), "map[string][]models.ShardID")[db][i]].State == models.OnlineShard))
+//@   loop 1 invariant state.ShardStates == old(state.ShardStates) && replicasOnOnlineNode == cast(replicasOf(state, node.ID), "map[string][]models.ShardID") && all(db, "string", has(state.ShardStates, db) ==> state.ShardStates[db] != nil)
+//@   loop 1 invariant all(db, "string", (visited(replicasOnOnlineNode, db) && has(state.ShardStates, db)) ==> forall(i, 0, len(replicasOnOnlineNode[db]), has(state.ShardStates[db], replicasOnOnlineNode[db][i]) && state.ShardStates[db][replicasOnOnlineNode[db][i]].State == models.OnlineShard))
+//@   loop 2 invariant state.ShardStates == old(state.ShardStates) && replicasOnOnlineNode == cast(replicasOf(state, node.ID), "map[string][]models.ShardID") && all(d2, "string", has(state.ShardStates, d2) ==> state.ShardStates[d2] != nil) && shardStates == state.ShardStates[db] && has(state.ShardStates, db) && shards == replicasOnOnlineNode[db] && has(replicasOnOnlineNode, db)
+//@   loop 2 invariant all(d2, "string", (visited(replicasOnOnlineNode, d2) && d2 != db && has(state.ShardStates, d2)) ==> forall(i, 0, len(replicasOnOnlineNode[d2]), has(state.ShardStates[d2], replicasOnOnlineNode[d2][i]) && state.ShardStates[d2][replicasOnOnlineNode[d2][i]].State == models.OnlineShard))
+//@   loop 2 invariant forall(i, 0, rangeindex + 1, has(shardStates, shards[i]) && shardStates[shards[i]].State == models.OnlineShard)
+//@ end
